@@ -76,6 +76,20 @@ class Session:
                 self.refs[subkey] = None
             else:
                 self.refs[subkey] = cat
+                # the reference itself is anchored to the files once per session: a length and a velocity column against
+                # stored value x this catalogue's own header scale (state carried over from a previously loaded catalogue
+                # would otherwise shift reference and request alike)
+                try:
+                    slabs = self.truth['slab_inds']
+                    for col, fac in (('x_com', self.truth['box']), ('v_com', self.truth['velz'])):
+                        raw = np.concatenate([self.truth['slabs'][s_]['raw'][col] for s_ in slabs]).astype(np.float64)
+                        exp = raw * (fac if self.units else 1.0)
+                        got = np.asarray(cat.halos[col], dtype=np.float64)
+                        self.run.count('reference_anchor_values', got.size)
+                        if got.shape != exp.shape or not np.all(np.abs(got - exp) <= 2e-6 * np.abs(exp) + 1e-30):
+                            self.run.violation('reference-load-not-this-catalogues-scale', dict(tree=self.tag, column=col, cleaned=self.cleaned, convert_units=self.units, BoxSize=self.truth['box'], VelZSpace_to_kms=self.truth['velz']))
+                except KeyError:
+                    pass
         return self.refs[subkey]
 
     def request(self, fields, subkey='none', sub=False, check_cols=None, label='', container=None, verbose=False):
@@ -85,8 +99,10 @@ class Session:
             kw['fields'] = tuple(fields)
         elif container == 'ndarray':
             kw['fields'] = np.array(list(fields))
-        if verbose:
-            kw['verbose'] = True
+        self.nreq = getattr(self, 'nreq', 0) + 1
+        if verbose or self.nreq % 9 == 4:
+            kw['verbose'] = True  # verbose mode only reports; every 9th request of whatever class runs with it
+            label = (label + '+verbose') if not verbose else label
         desc = dict(tree=self.tag, request=list(fields) if not isinstance(fields, str) else fields, cleaned=self.cleaned, convert_units=self.units, subsamples=repr(sub), kind=label)
         run.progress(desc)
         run.ev()
@@ -314,6 +330,16 @@ def check(run):
     catoracle.fast_io()
     rng = run.rng(0)
     ntree = 1 if run.quick else 8
+    # another catalogue (other BoxSize / velocity scale) is loaded in this process before anything is compared
+    decoy = gen_catalog.make_tree(run.rng(9), nslab=1, halos_per_slab=[5], box=77.0, velz=5555.0)
+    try:
+        for cl in (True, False):
+            catoracle.load(decoy['path'], cleaned=cl, fields='all', subsamples=True)
+            run.count('decoy_loads')
+    finally:
+        import shutil as _sh
+
+        _sh.rmtree(decoy['root'], ignore_errors=True)
     for k in range(ntree):
         tree_session(run, rng, k, run.quick)
         if run.too_many():
